@@ -511,6 +511,40 @@ def check_laguerre_step_semantic(F, run, roots):
     deg = 5
     P, dP, ddP, Z = sp.Symbol("P"), sp.Symbol("dP"), sp.Symbol("ddP"), sp.Symbol("Zk")
     nn = sp.Integer(deg)
+    from bsa.hir import pat_binds as _pb
+    has_self = any(nm == "self" for prm in b["params"] for _, nm in _pb(prm))
+    if not has_self:
+        # the loop lives in a helper that is handed the degree: n is that parameter (a symbol here), and every call of the helper must pass the number of
+        # coefficients minus one of the polynomial being solved
+        ints = [(k_, prm) for k_, prm in enumerate(b["params"]) if prm.get("k") == "Bind" and (prm.get("ty") or "") in ("usize", "u32", "u64", "i32", "i64")
+                and any(x.get("k") == "Local" and x.get("id") == prm["id"] for x in walk(loop["body"]))]
+        # the iteration cap is also an integer parameter, but the loop body does not read it
+        if len(ints) != 1:
+            run.broken("R14.6", dp, "laguerre-step", where, "the Laguerre loop is in %s, which does not take the degree as its one integer parameter read by the step" % b["path"])
+            return
+        k_deg, prm = ints[0]
+        nn = sp.Symbol(prm["name"])
+        sites = [(c_, x) for c_ in F.bodies if isinstance(c_.get("body"), dict) for x in walk(c_["body"]) if x.get("k") == "Call" and (callee(x) or "") == b["path"]]
+        okw = bool(sites)
+        for c_, x in sites:
+            try:
+                itc = vecint.VInterp(F, c_, None)
+                itc.if_hook = lambda i, n_, c: PI.generic_decide(c)
+                for q in c_["params"]:
+                    for i_, nm in _pb(q):
+                        itc.env[i_], itc.names[i_] = (PI.poly(PI.symbols("c", deg + 1)) if nm == "self" else sp.Symbol(nm)), nm
+                for st in cfg.preceding_statements(c_["body"], x):
+                    if st.get("k") == "LetS" and "init" in st and "Mut)" not in st["pat"].get("mode", "") and not any(y.get("k") in ("Try", "Ret") for y in walk(st["init"])):
+                        try:
+                            itc.run_stmt(st)
+                        except Exception:
+                            pass
+                okw = okw and itc.ev(x["args"][k_deg]) == deg
+            except Exception:
+                okw = False
+        if not run.check(okw, "R14.6", dp, "degree-argument", where, "%s is not called with the degree (number of coefficients − 1) of the polynomial being solved as its `%s`"
+                         % (b["path"], prm["name"]), sample="helper receives n = degree"):
+            return
     G = dP / P
     H = G ** 2 - ddP / P
     E_want = sp.expand((nn - 1) * (nn * H - G ** 2))
